@@ -185,6 +185,34 @@ func genPoolMain(seed uint64, n int) int {
 			have++
 		}
 	}
+	// ... and at least two batches of three chunks or more: pipelines and rings
+	// of buffers inside one call only wrap around from the third chunk on
+	big := 0
+	for _, op := range ops {
+		if op.Fn == "VerifyBatch" && len(op.Entries) >= 132 {
+			big++
+		}
+	}
+	for k := 0; big < 2 && k < 4000 && slot >= 0; k++ {
+		r := NewRng(seed, lbl("pool-fill"), lbl("three-chunks"), uint64(k))
+		op, _ := genBatchOp(r, 200)
+		if len(op.Entries) < 132 || len(op.Entries) > 200 {
+			continue
+		}
+		cnt := 0
+		for _, o := range ops {
+			if o.Fn == ops[slot].Fn {
+				cnt++
+			}
+		}
+		if cnt <= 2 || (ops[slot].Fn == "VerifyBatch" && len(ops[slot].Entries) >= 132) {
+			slot--
+			continue
+		}
+		ops[slot] = op
+		slot--
+		big++
+	}
 	b, _ := json.Marshal(ops)
 	os.Stdout.Write(append(b, '\n'))
 	return 0
@@ -834,8 +862,14 @@ func runEpisode(ep *Episode, pool []*Op, refs []Ref, st *ConcStats, a *concArgs)
 			fmt.Fprintf(grantLog, "%d %d %d\n", g.C, g.S, gc)
 		}
 		hb := zzsimrt.Handoffs()
+		t0 := zzsimrt.Total()
 		who, kind := zzsimrt.Grant(g.C, g.S)
 		adopt()
+		if zzsimrt.Total() != t0 && kind == zzsimrt.KBlocked {
+			// it executed library code before it blocked (again): progress
+			blockedStreak = 0
+			blockedSet = map[int]bool{}
+		}
 		if who != g.C {
 			if zzsimrt.Handoffs() == hb || who < 0 || who >= T {
 				infra("baton: granted client %d, client %d answered", g.C, who)
@@ -947,8 +981,9 @@ func runEpisode(ep *Episode, pool []*Op, refs []Ref, st *ConcStats, a *concArgs)
 		}
 	}
 	if zzsimrt.ChildOverrun() && viol == nil {
-		viol = &ViolationRec{T: "violation", Prop: "C15", CheckID: "conc-progress", Engine: "conc",
-			Msg: "a goroutine started by the library ran past its step budget"}
+		// inconclusive (see execOp): counted, no comparison made for this episode
+		st.Fired["inconclusive_library_goroutine_past_its_step_budget"]++
+		return nil
 	}
 	for c := 0; c < top; c++ {
 		for j, o := range cl[c].outs {
@@ -1164,6 +1199,18 @@ func concMain(a concArgs) int {
 		emit(map[string]interface{}{"t": "ep-start", "idx": ep.Idx, "family": ep.Family, "clients": len(ep.Clients)})
 		v := runEpisode(ep, pool, refs, st, &a)
 		st.Episodes++
+		// Goroutines of the library that are still alive when an episode is over
+		// (a long-lived worker behind sync.Once, a pool with an idle timeout)
+		// belong to that episode's baton session: a further episode in this
+		// process would meet them parked for ever. The process ends here; the
+		// next round starts a fresh one.
+		endProcess := zzsimrt.LiveChildren() > 0 && fixed == nil && a.to < 0 // (sweeps too: what is left of the plan is skipped)
+		if endProcess {
+			if st.Notes == nil {
+				st.Notes = map[string]int{}
+			}
+			st.Notes["process_ended_early_library_goroutines_alive"] = 1
+		}
 		if a.trace {
 			emit(map[string]interface{}{"t": "trace", "idx": ep.Idx, "grants": len(ep.Grants), "total": zzsimrt.Total(), "viol": v != nil})
 		}
@@ -1188,6 +1235,10 @@ func concMain(a concArgs) int {
 			break
 		}
 		if fixed != nil {
+			break
+		}
+		if endProcess {
+			idx++
 			break
 		}
 		idx++
